@@ -61,6 +61,12 @@ def gen_form_case(rng, tier, forms=("arc", "path", "seq"), heur_p=0.35, nmax=Non
         # … or with the depot node first, queried, and the depot declared only afterwards
         case["via"], case["skip_set_depot"], case["then_set_depot"] = "wrapper", True, True
         case["arcs_before_depot"] = len(case["spec"]["arcs"])
+    elif r_ < 0.41 and form != "seq":
+        # … or with the depot node first and NEVER declared ("default depot is zeroth node").  Not for the sequence class: its protocol
+        # is to call set_depot, which installs the stay-at-depot move (the package's own test_sequence_based pins "3 arcs before
+        # set_depot, 4 after"; a repair that installs the loop at the first add_node breaks that test)
+        case["via"], case["skip_set_depot"] = "wrapper", True
+        case["arcs_before_depot"] = len(case["spec"]["arcs"])
     return case
 
 
